@@ -46,13 +46,14 @@ Definition fits32 (a : archive) : Prop := ser_bound a < U32.
 
 (* ------------------------------------------------------------------ the phases of serialize, named *)
 Section Named.
+Variable kf : name_key.   (* the sort key of label names (Model/BinFormat.v) *)
 Variable a : archive.
 Definition cs_sorted := isort (fun x y : bytes * list N => bytes_leb (fst x) (fst y)) (a_cstrs a).
 Definition cs_run := cstr_pool (size a) cs_sorted pool_empty [].
 Definition cs_ptrs : list (N * N) := snd cs_run.            (* one pointer per pending c-string cell, into the pool *)
 Definition pool_bytes : bytes := pad_to 4 (p_raw (fst cs_run)).   (* the padded c-string pool *)
 Definition all_ptrs := isort (fun x y : N * N => fst x <=? fst y) (a_ptrs a ++ cs_ptrs).
-Definition lab_sorted := isort (match a_endian a with BE => label_leb_be | LE => label_leb_le end) (a_labels a).
+Definition lab_sorted := isort (label_leb kf (a_endian a)) (a_labels a).
 Definition lab_run := emit_labels lab_sorted pool_empty [].
 Definition txt_sorted := isort (fun x y : N * bytes => fst x <=? fst y) (a_text a).
 Definition text_start : N :=
@@ -85,9 +86,9 @@ Definition assemble (m : mode) (r : bytes * pool * list (N * list N)) : outcome 
       ++ enc e 4 (trunc_w 32 (N.of_nat (length raw_labels) / 2)) ++ zeros 16
       ++ d2 ++ pool_bytes ++ u32s e raw_pointers ++ u32s e raw_labels ++ p_raw tpool2).
 
-Lemma serialize_unfold m : serialize m a = r <- ser_data ;; assemble m r.
+Lemma serialize_unfold m : serialize_k kf m a = r <- ser_data ;; assemble m r.
 Proof.
-  unfold serialize, ser_data, assemble, text_start, all_ptrs, pool_bytes, cs_ptrs, lab_run, cs_run, lab_sorted, txt_sorted, cs_sorted.
+  unfold serialize_k, ser_data, assemble, text_start, all_ptrs, pool_bytes, cs_ptrs, lab_run, cs_run, lab_sorted, txt_sorted, cs_sorted.
   destruct (cstr_pool _ _ _ _) as [cpool cptrs]. cbn [fst snd].
   destruct (poke_all _ _ _) as [d1| |]; cbn [bind]; try reflexivity.
   destruct (emit_labels _ _ _) as [tpool1 raw_labels]. cbn [fst snd].
@@ -145,6 +146,7 @@ Qed.
 
 (* ------------------------------------------------------------------ the phases under wf_archive / fits32 *)
 Section Ser.
+Variable kf : name_key.
 Variable a : archive.
 Hypothesis WF : wf_archive a.
 Hypothesis FIT : fits32 a.
@@ -224,16 +226,16 @@ Proof.
 Qed.
 
 (* ---- labels *)
-Lemma lab_sorted_perm : Permutation (a_labels a) (lab_sorted a).
+Lemma lab_sorted_perm : Permutation (a_labels a) (lab_sorted kf a).
 Proof. apply isort_perm. Qed.
 
 Lemma lab_facts : exists ltab,
-  snd (lab_run a) = flat ltab /\ pool_ok (fst (lab_run a)) /\
-  Forall2 (lab_ok (p_raw (fst (lab_run a)))) ltab (label_names (lab_sorted a)) /\
-  p_len (fst (lab_run a)) <= sumf (fun kb => sumf (fun l => lenN l + 1) (snd kb)) (a_labels a) /\
-  wfb (p_raw (fst (lab_run a))).
+  snd (lab_run kf a) = flat ltab /\ pool_ok (fst (lab_run kf a)) /\
+  Forall2 (lab_ok (p_raw (fst (lab_run kf a)))) ltab (label_names (lab_sorted kf a)) /\
+  p_len (fst (lab_run kf a)) <= sumf (fun kb => sumf (fun l => lenN l + 1) (snd kb)) (a_labels a) /\
+  wfb (p_raw (fst (lab_run kf a))).
 Proof.
-  unfold lab_run. destruct (emit_labels (lab_sorted a) pool_empty []) as [tpool1 rl] eqn:E. cbn [fst snd].
+  unfold lab_run. destruct (emit_labels (lab_sorted kf a) pool_empty []) as [tpool1 rl] eqn:E. cbn [fst snd].
   destruct (emit_labels_spec _ _ _ _ _ pool_ok_empty E) as (Hok & _ & (ltab & Eo & HF) & Hl & Hw). cbn [app] in Eo.
   exists ltab. split; [exact Eo|]. split; [exact Hok|]. split; [exact HF|]. split.
   - rewrite (sumf_perm _ _ _ lab_sorted_perm). cbn [pool_empty p_len] in Hl. lia.
@@ -258,23 +260,23 @@ Proof.
 Qed.
 
 Lemma ser_facts : exists d2 tpool2 groups ltab,
-  ser_data a = Ok (d2, tpool2, groups) /\
+  ser_data kf a = Ok (d2, tpool2, groups) /\
   lenN d2 = size a /\ wfb d2 /\
   (forall c v, In (c, v) (all_ptrs a) -> u32_at e d2 c = Some (trunc_w 32 v)) /\
   (forall c s, In (c, s) (a_text a) ->
-     exists off, u32_at e d2 c = Some (trunc_w 32 (text_start a + off)) /\ holds (p_raw tpool2) off s) /\
+     exists off, u32_at e d2 c = Some (trunc_w 32 (text_start kf a + off)) /\ holds (p_raw tpool2) off s) /\
   (forall i, outside (cells a) i -> nth_error d2 i = nth_error (a_data a) i) /\
   pool_ok tpool2 /\ wfb (p_raw tpool2) /\
   p_len tpool2 <= sumf (fun kb => sumf (fun l => lenN l + 1) (snd kb)) (a_labels a)
                   + sumf (fun cs => lenN (snd cs) + 1) (a_text a) /\
-  snd (lab_run a) = flat ltab /\
-  Forall2 (lab_ok (p_raw tpool2)) ltab (label_names (lab_sorted a)) /\
+  snd (lab_run kf a) = flat ltab /\
+  Forall2 (lab_ok (p_raw tpool2)) ltab (label_names (lab_sorted kf a)) /\
   Permutation (concat (map snd groups)) (map fst (txt_sorted a)).
 Proof.
   destruct (poke_all_spec e (all_ptrs a) (a_data a) ptr_cells_ok) as (d1 & E1 & L1 & Hu1 & _ & Hn1 & HW1).
   destruct lab_facts as (ltab & Erl & Hok1 & HF1 & Hl1 & Hw1).
   assert (Hc2 : cells_ok (lenN d1) (map fst (txt_sorted a))) by (rewrite L1; exact txt_cells_ok).
-  destruct (emit_text_spec e (text_start a) (txt_sorted a) d1 (fst (lab_run a)) [] Hok1 Hc2)
+  destruct (emit_text_spec e (text_start kf a) (txt_sorted a) d1 (fst (lab_run kf a)) [] Hok1 Hc2)
     as (d2 & tpool2 & groups & E2 & Hok2 & Hx2 & L2 & Hstr & Hfar & Hn2 & HW2 & Hwp & Hperm & Hl2).
   exists d2, tpool2, groups, ltab.
   split; [unfold ser_data; rewrite E1; cbn [bind]; exact E2|].
@@ -364,7 +366,7 @@ Proof.
 Qed.
 
 (* every label name of the archive *)
-Lemma label_name_wf k l : In (k, l) (label_names (lab_sorted a)) -> k <= size a /\ ~ In 0 l /\ wfb l.
+Lemma label_name_wf k l : In (k, l) (label_names (lab_sorted kf a)) -> k <= size a /\ ~ In 0 l /\ wfb l.
 Proof.
   intros H. destruct (label_names_in _ _ _ H) as (b & Hb & Hl).
   apply (Permutation_in _ (Permutation_sym lab_sorted_perm)) in Hb.
@@ -384,14 +386,14 @@ Hypothesis L2 : lenN d2 = size a.
 Hypothesis Hok2 : pool_ok tpool2.
 Hypothesis Hlen : p_len tpool2 <= sumf (fun kb => sumf (fun l => lenN l + 1) (snd kb)) (a_labels a)
                                   + sumf (fun cs => lenN (snd cs) + 1) (a_text a).
-Hypothesis Erl : snd (lab_run a) = flat ltab.
-Hypothesis HF : Forall2 (lab_ok (p_raw tpool2)) ltab (label_names (lab_sorted a)).
+Hypothesis Erl : snd (lab_run kf a) = flat ltab.
+Hypothesis HF : Forall2 (lab_ok (p_raw tpool2)) ltab (label_names (lab_sorted kf a)).
 Hypothesis Hperm : Permutation (concat (map snd groups)) (map fst (txt_sorted a)).
 Hypothesis W2 : wfb d2.
 Hypothesis Wp : wfb (p_raw tpool2).
 Hypothesis Hptr : forall c v, In (c, v) (all_ptrs a) -> u32_at e d2 c = Some (trunc_w 32 v).
 Hypothesis Hstr : forall c s, In (c, s) (a_text a) ->
-  exists off, u32_at e d2 c = Some (trunc_w 32 (text_start a + off)) /\ holds (p_raw tpool2) off s.
+  exists off, u32_at e d2 c = Some (trunc_w 32 (text_start kf a + off)) /\ holds (p_raw tpool2) off s.
 
 Let rp := rp_of groups.
 Let dsz := size a + lenN (pool_bytes a).
@@ -403,7 +405,7 @@ Definition image_of : bytes :=
 
 Lemma ltab_len : lenL ltab = sumf (fun kb => lenL (snd kb)) (a_labels a).
 Proof.
-  unfold lenL at 1. rewrite (Forall2_len _ _ _ HF). fold (lenL (label_names (lab_sorted a))).
+  unfold lenL at 1. rewrite (Forall2_len _ _ _ HF). fold (lenL (label_names (lab_sorted kf a))).
   rewrite label_names_len. apply sumf_perm, Permutation_sym, lab_sorted_perm.
 Qed.
 Lemma pool_bytes_bound : lenN (pool_bytes a) <= sumf (fun sc => lenN (fst sc) + 1) (a_cstrs a) + 3.
@@ -425,7 +427,7 @@ Proof.
   rewrite E. unfold fsz, dsz. lia.
 Qed.
 
-Lemma assemble_ok m : assemble a m (d2, tpool2, groups) = Ok image_of.
+Lemma assemble_ok m : assemble kf a m (d2, tpool2, groups) = Ok image_of.
 Proof.
   pose proof fsz_small as Hs. unfold assemble. fold (rp_of groups). fold rp. rewrite Erl.
   assert (E1 : N.of_nat (length rp) = lenL rp) by reflexivity.
@@ -441,7 +443,7 @@ Qed.
 Lemma dsz_le_fsz : dsz + 32 <= fsz.
 Proof. unfold fsz. lia. Qed.
 
-Lemma text_start_eq : text_start a = dsz + 4 * lenL rp + 8 * lenL ltab.
+Lemma text_start_eq : text_start kf a = dsz + 4 * lenL rp + 8 * lenL ltab.
 Proof.
   unfold text_start. rewrite Erl, length_flat. pose proof (rp_head_len groups Hperm) as H. fold rp in H.
   unfold lenL in *. unfold dsz. lia.
@@ -468,13 +470,13 @@ Proof.
   apply Forall_forall. intros c Hc. apply cell_small. eapply Permutation_in; [apply (rp_cells groups Hperm) | exact Hc].
 Qed.
 
-Lemma names_wf : Forall (fun named => fst named <= size a /\ ~ In 0 (snd named) /\ wfb (snd named)) (label_names (lab_sorted a)).
+Lemma names_wf : Forall (fun named => fst named <= size a /\ ~ In 0 (snd named) /\ wfb (snd named)) (label_names (lab_sorted kf a)).
 Proof. apply Forall_forall. intros [k l] Hin. apply label_name_wf, Hin. Qed.
 
 Lemma ltab_small : Forall (fun p => fst p < U32 /\ snd p < U32) ltab.
 Proof.
   pose proof fsz_small as Hs. pose proof size_small as Hz. unfold fits32 in FIT.
-  assert (HF' : Forall2 (fun (x : N * N) (y : N * bytes) => fst x < U32 /\ snd x < U32) ltab (label_names (lab_sorted a))).
+  assert (HF' : Forall2 (fun (x : N * N) (y : N * bytes) => fst x < U32 /\ snd x < U32) ltab (label_names (lab_sorted kf a))).
   { eapply Forall2_In_impl; [exact names_wf | | exact HF]. intros [addr off] [k l] (Hk & _ & _) [E Hh]. cbn [fst snd] in *. subst.
     apply holds_bound in Hh. unfold fsz in Hs. split; lia. }
   clear -HF'. induction HF'; constructor; auto.
@@ -519,20 +521,20 @@ Proof.
   { unfold rp. rewrite (rp_len groups Hperm). pose proof (In_lenL_pos _ _ Hin). lia. }
   assert (Hc : cell + 4 <= lenN d2).
   { rewrite L2. apply (wf_cells_in a WF). unfold cells. apply in_or_app. right. apply in_or_app. left. eapply in_map_fst; eauto. }
-  exists (text_start a + off). split; [|split].
+  exists (text_start kf a + off). split; [|split].
   - rewrite u32_at_app_l by exact Hc. rewrite Hu, trunc_small; [reflexivity|]. unfold fsz in Hs. lia.
   - rewrite lenN_app, L2. fold dsz. lia.
   - rewrite Et. apply text_at; [exact Hh | apply (wf_strings a WF cell s Hin)].
 Qed.
 
 Lemma labels_resolved :
-  Forall2 (resolved image_of (lenN (d2 ++ pool_bytes a) + 4 * lenL rp + 8 * lenL ltab)) ltab (label_names (lab_sorted a)).
+  Forall2 (resolved image_of (lenN (d2 ++ pool_bytes a) + 4 * lenL rp + 8 * lenL ltab)) ltab (label_names (lab_sorted kf a)).
 Proof.
   eapply Forall2_In_impl; [exact names_wf | | exact HF]. intros [addr off] [k l] (_ & Hn & _) [E Hh]. cbn [fst snd] in *.
   split; [exact E|]. cbn [snd]. rewrite lenN_app, L2. fold dsz. apply text_at; assumption.
 Qed.
 
-Lemma labels_grouped_ok : labels_grouped (label_names (lab_sorted a)) (a_labels a).
+Lemma labels_grouped_ok : labels_grouped (label_names (lab_sorted kf a)) (a_labels a).
 Proof.
   split; [apply (wf_label_keys a WF)|]. intros addr. split.
   - rewrite names_at_label_names by (eapply Permutation_NoDup; [apply Permutation_map, lab_sorted_perm | apply (wf_label_keys a WF)]).
@@ -543,7 +545,7 @@ Qed.
 Lemma image_conforms :
   conforms e image_of {| c_data := d2 ++ pool_bytes a; c_ptrs := a_ptrs a ++ cs_ptrs a; c_text := a_text a; c_labels := a_labels a |}.
 Proof.
-  exists (zeros 16), rp, ltab, (p_raw tpool2), (label_names (lab_sorted a)). cbv zeta. cbn [c_data c_ptrs c_text c_labels].
+  exists (zeros 16), rp, ltab, (p_raw tpool2), (label_names (lab_sorted kf a)). cbv zeta. cbn [c_data c_ptrs c_text c_labels].
   split; [|split; [|split; [|split; [|split; [|split; [|split; [|split; [|split; [|split; [|split]]]]]]]]]].
   - rewrite lenN_image. rewrite lenN_app, L2. reflexivity.
   - reflexivity.
@@ -571,34 +573,36 @@ End Final.
 End Ser.
 
 (* ================================================================== the theorems *)
-Lemma published_eq a d2 tpool2 groups : ser_data a = Ok (d2, tpool2, groups) ->
-  published a = {| c_data := d2 ++ pool_bytes a; c_ptrs := a_ptrs a ++ cs_ptrs a; c_text := a_text a; c_labels := a_labels a |}.
+Section Theorems.
+Variable kf : name_key.
+Lemma published_eq a d2 tpool2 groups : ser_data kf a = Ok (d2, tpool2, groups) ->
+  published kf a = {| c_data := d2 ++ pool_bytes a; c_ptrs := a_ptrs a ++ cs_ptrs a; c_text := a_text a; c_labels := a_labels a |}.
 Proof. intros E. unfold published, data_region. rewrite E. reflexivity. Qed.
 
 (* C01_serialize_conforms *)
 Theorem serialize_conforms : forall m a, wf_archive a -> fits32 a ->
-  exists f, serialize m a = Ok f /\ wfb f /\ conforms (a_endian a) f (published a).
+  exists f, serialize_k kf m a = Ok f /\ wfb f /\ conforms (a_endian a) f (published kf a).
 Proof.
   intros m a WF FIT.
-  destruct (ser_facts a WF) as (d2 & tpool2 & groups & ltab & Es & L2 & W2 & Hptr & Hstr & Hnth & Hok2 & Wp & Hlen & Erl & HF & Hperm).
+  destruct (ser_facts kf a WF) as (d2 & tpool2 & groups & ltab & Es & L2 & W2 & Hptr & Hstr & Hnth & Hok2 & Wp & Hlen & Erl & HF & Hperm).
   exists (image_of a d2 tpool2 groups ltab). split; [|split].
   - rewrite serialize_unfold, Es. cbn [bind]. apply assemble_ok; assumption.
-  - apply image_wfb; assumption.
-  - rewrite (published_eq a d2 tpool2 groups Es). apply image_conforms; assumption.
+  - eapply image_wfb; eassumption.
+  - rewrite (published_eq a d2 tpool2 groups Es). eapply image_conforms; eassumption.
 Qed.
 
-(* ------------------------------------------------------------------ what published a is *)
+(* ------------------------------------------------------------------ what published kf a is *)
 Theorem published_components : forall a,
-  c_ptrs (published a) = a_ptrs a ++ cs_ptrs a /\ c_text (published a) = a_text a /\ c_labels (published a) = a_labels a.
+  c_ptrs (published kf a) = a_ptrs a ++ cs_ptrs a /\ c_text (published kf a) = a_text a /\ c_labels (published kf a) = a_labels a.
 Proof. intros a. repeat split. Qed.
 
 (* size: the data followed by the padded pool; no pool without c-strings *)
 Theorem published_data_len : forall a, wf_archive a ->
-  lenN (c_data (published a)) = size a + lenN (pool_bytes a) /\
+  lenN (c_data (published kf a)) = size a + lenN (pool_bytes a) /\
   lenN (pool_bytes a) mod 4 = 0 /\ (a_cstrs a = [] -> lenN (pool_bytes a) = 0).
 Proof.
   intros a WF.
-  destruct (ser_facts a WF) as (d2 & tpool2 & groups & ltab & Es & L2 & _).
+  destruct (ser_facts kf a WF) as (d2 & tpool2 & groups & ltab & Es & L2 & _).
   rewrite (published_eq a d2 tpool2 groups Es). cbn [c_data]. split; [rewrite lenN_app, L2; reflexivity|]. split.
   - destruct (pool_bytes_shape a) as (k & _ & _ & H). exact H.
   - intros E. unfold pool_bytes, cs_run, cs_sorted. rewrite E. reflexivity.
@@ -607,10 +611,10 @@ Qed.
 (* outside the annotated cells the original bytes are reproduced *)
 Theorem published_data_outside : forall a, wf_archive a ->
   forall i, (i < N.to_nat (size a))%nat -> outside (cells a) i ->
-  nth_error (c_data (published a)) i = nth_error (a_data a) i.
+  nth_error (c_data (published kf a)) i = nth_error (a_data a) i.
 Proof.
   intros a WF i Hi Ho.
-  destruct (ser_facts a WF) as (d2 & tpool2 & groups & ltab & Es & L2 & _ & _ & _ & Hnth & _).
+  destruct (ser_facts kf a WF) as (d2 & tpool2 & groups & ltab & Es & L2 & _ & _ & _ & Hnth & _).
   rewrite (published_eq a d2 tpool2 groups Es). cbn [c_data].
   rewrite nth_error_app1 by (unfold lenN in L2; lia). apply Hnth, Ho.
 Qed.
@@ -618,11 +622,11 @@ Qed.
 (* every pending c-string has become a pointer to a copy of the string inside the data region *)
 Theorem published_cstring : forall a, wf_archive a ->
   forall s cs cell, In (s, cs) (a_cstrs a) -> In cell cs ->
-  exists p, am_get cell (c_ptrs (published a)) = Some p /\ p < lenN (c_data (published a)) /\
-            cstr_atN (c_data (published a)) p = Some s.
+  exists p, am_get cell (c_ptrs (published kf a)) = Some p /\ p < lenN (c_data (published kf a)) /\
+            cstr_atN (c_data (published kf a)) p = Some s.
 Proof.
   intros a WF s cs cell Hs Hc.
-  destruct (ser_facts a WF) as (d2 & tpool2 & groups & ltab & Es & L2 & _).
+  destruct (ser_facts kf a WF) as (d2 & tpool2 & groups & ltab & Es & L2 & _).
   rewrite (published_eq a d2 tpool2 groups Es). cbn [c_data c_ptrs].
   destruct (cs_facts a WF) as (_ & Hout & _).
   assert (Hs' : In (s, cs) (cs_sorted a)) by (eapply Permutation_in; [apply cs_sorted_perm | exact Hs]).
@@ -644,7 +648,7 @@ Qed.
 
 (* the archive's own pointers are looked up unchanged *)
 Theorem published_own_pointers : forall a, wf_archive a ->
-  forall k, ~ In k (cs_cells a) -> am_get k (c_ptrs (published a)) = am_get k (a_ptrs a).
+  forall k, ~ In k (cs_cells a) -> am_get k (c_ptrs (published kf a)) = am_get k (a_ptrs a).
 Proof.
   intros a WF k Hk. cbn [published c_ptrs].
   destruct (am_get k (a_ptrs a)) as [v|] eqn:G; [apply am_get_app_in, G|].
@@ -653,10 +657,10 @@ Proof.
 Qed.
 
 (* ------------------------------------------------------------------ C01 "the serialized image is itself well-formed" *)
-Theorem serialize_image_wellformed : forall m a f, wf_archive a -> fits32 a -> serialize m a = Ok f ->
+Theorem serialize_image_wellformed : forall m a f, wf_archive a -> fits32 a -> serialize_k kf m a = Ok f ->
   exists ptab ltab txt,
     let e := a_endian a in
-    let d := c_data (published a) in
+    let d := c_data (published kf a) in
     (* header totals exact *)
     f = enc e 4 (lenN f) ++ enc e 4 (lenN d) ++ enc e 4 (lenL ptab) ++ enc e 4 (lenL ltab) ++ zeros 16
         ++ d ++ u32s e ptab ++ u32s e (flat ltab) ++ txt /\
@@ -669,13 +673,13 @@ Theorem serialize_image_wellformed : forall m a f, wf_archive a -> fits32 a -> s
     (size a mod 4 = 0 -> (32 + lenN d) mod 4 = 0 /\ (32 + lenN d + 4 * lenL ptab) mod 4 = 0).
 Proof.
   intros m a f WF FIT Ef.
-  destruct (ser_facts a WF) as (d2 & tpool2 & groups & ltab & Es & L2 & W2 & Hptr & Hstr & Hnth & Hok2 & Wp & Hlen & Erl & HF & Hperm).
+  destruct (ser_facts kf a WF) as (d2 & tpool2 & groups & ltab & Es & L2 & W2 & Hptr & Hstr & Hnth & Hok2 & Wp & Hlen & Erl & HF & Hperm).
   assert (E : f = image_of a d2 tpool2 groups ltab).
-  { rewrite serialize_unfold, Es in Ef. cbn [bind] in Ef. rewrite (assemble_ok a WF FIT d2 tpool2 groups ltab) in Ef by assumption.
+  { rewrite serialize_unfold, Es in Ef. cbn [bind] in Ef. rewrite (assemble_ok kf a WF FIT d2 tpool2 groups ltab) in Ef by assumption.
     inversion Ef. reflexivity. }
   assert (LI : lenN (image_of a d2 tpool2 groups ltab)
                = 32 + (size a + lenN (pool_bytes a)) + 4 * lenL (rp_of a groups) + 8 * lenL ltab + lenN (p_raw tpool2))
-    by (apply lenN_image; assumption).
+    by (eapply lenN_image; eassumption).
   exists (rp_of a groups), ltab, (p_raw tpool2). cbv zeta. rewrite (published_eq a d2 tpool2 groups Es). cbn [c_data].
   assert (Ld : lenN (d2 ++ pool_bytes a) = size a + lenN (pool_bytes a)) by (rewrite lenN_app, L2; reflexivity).
   split; [|split; [|split; [|split; [|split]]]].
@@ -685,12 +689,14 @@ Proof.
   - apply Forall_forall. intros c Hc. rewrite Ld. apply (Permutation_in _ (rp_cells a WF FIT groups Hperm)) in Hc.
     pose proof (wf_cells_in a WF c Hc). lia.
   - assert (HF' : Forall2 (fun (x : N * N) (y : N * bytes) => fst x <= lenN (d2 ++ pool_bytes a) /\ snd x < lenN (p_raw tpool2))
-                    ltab (label_names (lab_sorted a))).
-    { eapply Forall2_In_impl; [apply (names_wf a WF) | | exact HF]. intros [addr off] [k l] (Hk & _ & _) [E1 Hh]. cbn [fst snd] in *. subst.
+                    ltab (label_names (lab_sorted kf a))).
+    { eapply Forall2_In_impl; [apply (names_wf kf a WF) | | exact HF]. intros [addr off] [k l] (Hk & _ & _) [E1 Hh]. cbn [fst snd] in *. subst.
       apply holds_bound in Hh. rewrite Ld. split; lia. }
     clear -HF'. induction HF'; constructor; auto.
   - intros Hal. destruct (pool_bytes_shape a) as (k & _ & _ & Hp). rewrite Ld. split; lia.
 Qed.
+
+End Theorems.
 
 (* ------------------------------------------------------------------ non-vacuity *)
 (* a mixed big-endian archive: string at 0, pending c-string at 4, pointer at 8, two labels on the
@@ -725,12 +731,12 @@ Qed.
 
 (* the statements evaluated on it: the image, its published content, and what the parser makes of it *)
 Example ex_archive_image :
-  serialize Checked ex_archive =
+  serialize_k key_bytes Checked ex_archive =
     Ok [0;0;0;87; 0;0;0;18; 0;0;0;3; 0;0;0;2; 0;0;0;0;0;0;0;0;0;0;0;0;0;0;0;0;
         0;0;0;52; 0;0;0;14; 0;0;0;2; 13;14; 99;115;0;0;
         0;0;0;4; 0;0;0;8; 0;0;0;0;  0;0;0;14; 0;0;0;0; 0;0;0;14; 0;0;0;3;
         76;49;0; 76;50;0; 104;105;0]
-  /\ published ex_archive =
+  /\ published key_bytes ex_archive =
      {| c_data := [0;0;0;52; 0;0;0;14; 0;0;0;2; 13;14; 99;115;0;0];
         c_ptrs := [(8, 2); (4, 14)]; c_text := [(0, [104;105])]; c_labels := [(14, [[76;49]; [76;50]])] |}.
 Proof. split; vm_compute; reflexivity. Qed.
